@@ -752,3 +752,132 @@ def rule_l2(P):
     for f, line, t in bad:
         findings.append(F("L2", f"L2|{f}|{t.rsplit('::', 1)[1]}", f"{f} (executed only when the source is a .glyphspackage) consults a custom parameter ({t}): the package route interprets font content that the .glyphs-file and in-memory routes do not, so the same design can compile to different fonts depending on the container", P.site_loc(f, line)))
     return findings, obl, samples, {"package_only_functions": len(only_pkg), "custom_parameter_accessors": len(interp)}
+
+
+# ---------------------------------------------------------------------------------------------- L3 diagnostic ranges (C13)
+def rule_l3(P, tables):
+    """Diagnostics must point at ranges on character boundaries inside the source.  Token ranges (Parser::nth_range, token
+    .range fields, node ranges) have that property by construction (the lexer advances by whole characters); a range computed
+    by byte arithmetic (`start + pos .. start + pos + 1`) does not.  Structural clause: in the FEA parser, the Range handed to a
+    diagnostic constructor is not computed with integer arithmetic in the reporting function, except at audited sites."""
+    findings, obl, samples = [], [], []
+    allowed = {e["fn"]: e for e in tables.get("e5_tables", {}).get("range_arithmetic_allowed", [])}
+    from common import norm_fn
+    n = 0
+    per_fn = defaultdict(list)
+    for fn, body in P.bodies.items():
+        if not fn.startswith("fea_rs::parse::"):
+            continue
+        defs = None
+        for s in P.iter_sites(fn):
+            if s["kind"] != "call" or body["blocks"][s["bi"]]["cl"]:
+                continue
+            tgs = s["targets"]
+            if not any(t.startswith("fea_rs::") and t.rsplit("::", 1)[1] in ("raw_error", "error", "warning", "new") and ("diagnostic" in t or "parser" in t) for t in tgs):
+                continue
+            t = s["term"]
+            for a in t["a"]:
+                l = operand_local(a)
+                if l is None or not body["locals"][l].startswith("std::ops::Range<usize>"):
+                    continue
+                n += 1
+                defs = defs or def_sites(body)
+                _, recs = backward_slice(body, [l], defs, through_calls=False)
+                arith = [d for d in recs if d[0] == "stmt" and d[3]["rv"].get("r") == "bin" and d[3]["rv"].get("op", "").startswith(("Add", "Sub", "Mul"))]
+                # field updates of the range local itself (range.end = range.start + 1)
+                for blk in body["blocks"]:
+                    for st in blk["s"]:
+                        if st["d"][0] == l and len(st["d"]) > 1 and st["rv"].get("r") in ("bin", "use"):
+                            ol = [operand_local(o) for o in st["rv"].get("o", [])]
+                            for x in ol:
+                                for d in (defs.get(x, []) if x is not None else []):
+                                    if d[0] == "stmt" and d[3]["rv"].get("r") == "bin" and d[3]["rv"].get("op", "").startswith(("Add", "Sub")):
+                                        arith.append(d)
+                            if st["rv"].get("r") == "bin":
+                                arith.append(("stmt", 0, 0, st))
+                per_fn[norm_fn(fn)].append((s["line"], bool(arith)))
+    for fn, sites in sorted(per_fn.items()):
+        bad = [ln for ln, a in sites if a]
+        if not bad:
+            obl.append({"rule": "L3", "inst": f"{fn}: {len(sites)} diagnostic range(s) taken from token/node ranges", "ok": True})
+            continue
+        e = allowed.get(fn)
+        ok = e is not None and len(bad) <= e.get("count", 1)
+        obl.append({"rule": "L3", "inst": f"{fn}: diagnostic range computed with arithmetic (lines {bad})" + (f": audited ({e['reason'][:60]})" if ok else ""), "ok": ok})
+        if not ok:
+            findings.append(F("L3", f"L3|{fn}", f"{fn} reports a diagnostic whose range is computed with byte arithmetic (lines {bad}) instead of taken from a token range: for non-ASCII text the range can end inside a character or outside the source", P.site_loc(fn, bad[0])))
+    if n < 10:
+        raise E5Error(f"L3: too few diagnostic range arguments found ({n})")
+    return findings, obl, samples, {"diagnostic_range_args": n}
+
+
+# ---------------------------------------------------------------------------------------------- L4 UFO vs designspace lib keys (C20)
+def rule_l4(P, tables):
+    """A lone UFO and a designspace listing only that UFO must agree.  DesignSpaceIrSource::new copies the default master's lib
+    into the designspace lib only for a lone UFO; for a .designspace input `public.*` keys are NOT merged.  So a `public.*`
+    key looked up on `designspace.lib` is seen on one route and not on the other.  Structural clause: `public.*` keys are looked
+    up on the designspace lib only for the documented keys."""
+    findings, obl, samples = [], [], []
+    allowed = {e["key"]: e for e in tables.get("e5_tables", {}).get("designspace_public_keys_allowed", [])}
+    n_pub = 0
+    n_ds = 0
+    for fn, body in P.bodies.items():
+        if not fn.startswith("ufo2fontir::"):
+            continue
+        defs = None
+        for s in P.iter_sites(fn):
+            if s["kind"] != "call" or body["blocks"][s["bi"]]["cl"]:
+                continue
+            if not any(t.startswith("plist::dictionary::") and t.rsplit("::", 1)[1] in ("get", "contains_key", "get_mut", "remove") for t in s["targets"]):
+                continue
+            t = s["term"]
+            keys = [a.get("k", {}).get("str") for a in t["a"][1:]]
+            # key may be passed through a &str local initialised from a constant
+            if not any(keys):
+                for a in t["a"][1:]:
+                    l = operand_local(a)
+                    if l is None:
+                        continue
+                    defs = defs or def_sites(body)
+                    _, recs = backward_slice(body, [l], defs, through_calls=False)
+                    for d in recs:
+                        if d[0] == "stmt":
+                            for o in d[3]["rv"].get("o", []):
+                                k = o.get("k", {})
+                                if "str" in k:
+                                    keys.append(k["str"])
+                                elif "uneval" in k and k["uneval"] in P.bodies:
+                                    for blk in P.bodies[k["uneval"]]["blocks"]:
+                                        for st in blk["s"]:
+                                            for oo in st["rv"].get("o", []):
+                                                if "str" in oo.get("k", {}):
+                                                    keys.append(oo["k"]["str"])
+            pub = [k for k in keys if k and k.startswith("public.")]
+            if not pub:
+                continue
+            n_pub += 1
+            recv = operand_local(t["a"][0])
+            defs = defs or def_sites(body)
+            _, recs = backward_slice(body, [recv], defs)
+            on_ds = False
+            for d in recs:
+                rv = d[3]["rv"] if d[0] == "stmt" else None
+                places = []
+                if rv is not None:
+                    places = [operand_place(o) for o in rv.get("o", [])] + ([rv["p"]] if "p" in rv else [])
+                else:
+                    places = [operand_place(o) for o in d[3]["a"]]
+                for p in places:
+                    if p and any(e.startswith("f:lib:norad::designspace::") for e in p[1:]):
+                        on_ds = True
+            if not on_ds:
+                continue
+            n_ds += 1
+            for k in pub:
+                ok = k in allowed
+                obl.append({"rule": "L4", "inst": f"{fn} looks up '{k}' on the designspace lib" + (f": documented ({allowed[k]['reason'][:60]})" if ok else ""), "ok": ok})
+                if not ok:
+                    findings.append(F("L4", f"L4|{k}", f"{fn} looks up the UFO lib key '{k}' on designspace.lib: for a .designspace input public.* keys of the default master are not merged into that lib, so a lone UFO and a designspace listing only that UFO compile differently", P.site_loc(fn, s["line"])))
+    if n_pub < 4:
+        raise E5Error(f"L4: too few public.* lib lookups found ({n_pub})")
+    return findings, obl, samples, {"public_key_lookups": n_pub, "on_designspace_lib": n_ds}
